@@ -741,6 +741,27 @@ func runLocalSync(t *testing.T, tp *simrt.Tape, prop string) hx.Result {
 			history = append(history, fmt.Sprintf("2 commits in root%c/%s", 'A'+first.root, first.rel))
 			syncPair(allRoots, false)
 			syncPair(allRoots, false)
+		case 3:
+			// two repositories whose names order differently than their shard files move
+			// to another root together (keeping their names) and get new commits
+			if nRoots >= 2 && free(0, "group/beta") && free(0, "group/beta-old") && free(1, "group/beta") && free(1, "group/beta-old") {
+				a := w.create(0, "group/beta", false, nil)
+				b := w.create(0, "group/beta-old", false, nil)
+				history = append(history, "create repo rootA/group/beta", "create repo rootA/group/beta-old")
+				syncPair(allRoots, false)
+				for _, r := range []*lsRepo{a, b} {
+					old := w.path(r)
+					r.root = 1
+					os.MkdirAll(filepath.Dir(w.path(r)), 0o755)
+					if err := os.Rename(old, w.path(r)); err != nil {
+						res.HarnessErr = "move: " + err.Error()
+					}
+					r.work = w.path(r)
+					w.commit(r, w.name(r))
+				}
+				history = append(history, "move rootA/group/beta and rootA/group/beta-old to rootB, commit in both")
+				syncPair(allRoots, false)
+			}
 		case 2:
 			// indexed, then only mutable metadata changes
 			syncPair(allRoots, false)
